@@ -46,8 +46,12 @@ CLAIMED = {
          "Deductive proof for every sequence of requests and ticks (nondeterministic select, havoc'd received values, symbolic clock): a request is forwarded only on the channel the routing table holds for the chain id it names (no narrowing), only when that (chain, tx) is not in the cache, the cache grows only when a send happened, the purge removes exactly entries older than 11 minutes, and every send sits in a select with default.",
          "Trusted: govc, SMT solvers; ghost monotone clock for clock.Now (ticker phase arbitrary); hex.EncodeToString uninterpreted; goroutine scheduling and channel fairness not modelled (not needed: one goroutine); received requests assumed non-nil.",
          "DESIGN.md §3-C17"),
+ "C19": ("iff-contract on verifyVAA; index invariant on the guardian-set list proved preserved by updateGuardianSets / GetGuardianSet (with a termination variant on the chain range query); at-assertion at the queue hand-off inside the deduplicator closure; ghost call counter on the cache; SMT",
+         "Deductive proof (sequential): verifyVAA accepts exactly a VAA with >= floor(2n/3)+1 signatures valid for the given set; the set returned for index i has index i and the list stays contiguous across updates; a VAA reaches the persistence queue only after it was verified against the set whose index it carries; the deduplicator marks a key only after fn returned nil. One genuine defect (non-terminating range query for index 4294967295, reachable from unverified gossip) was found, replayed and repaired.",
+         "Trusted: govc, SMT solvers. NOT decided and not claimed: the clause 'also while newer sets are being appended concurrently' - GetGuardianSet reads the list without the lock; that is a data race between goroutines, outside sequential contracts. The explorer builds against a pinned release of the node module: the contracts of vaa.VerifySignatures and processor.CalculateQuorum are assumed for that copy (the source of both functions is identical to /repo's, where C06/C07 verify them). Ethereum contract answers are arbitrary values.",
+         "DESIGN.md §3-C19"),
  "C20": ("per-subscriber iteration contract on Publish (delivered iff matches, bytes exact, no other channel touched) with loop invariants, non-blocking obligation on every send under the mutex, contract on decodeEmitterAddr; SMT",
-         "Deductive proof for every subscription table and VAA: in each iteration Publish sends on the subscriber's channel iff the subscriber has no filters or a filter equal to the VAA's emitter chain and address, the bytes sent are the published bytes and no other subscriber's channel is touched. The independence clause is the non-blocking obligation on the two sends under subsMu; both fail on the current tree and are recorded as known findings (replayed on the real code: a stalled subscriber blocks Publish and the mutex).",
+         "Deductive proof for every subscription table and VAA: in each iteration Publish sends on the subscriber's channel iff the subscriber has no filters or a filter equal to the VAA's emitter chain and address, the bytes sent are the published bytes and no other subscriber's channel is touched. The independence clause is the non-blocking obligation on the two sends under subsMu; both fail on the current tree and are recorded as known findings (replayed on the real code: a stalled subscriber blocks Publish and the mutex). SubscribeSignedVAA registers exactly one filter per requested entry with the requested chain id (a narrowing defect was found, replayed and repaired).",
          "Trusted: govc, SMT solvers; vaa.Unmarshal through its verified contract; sync.Mutex not modelled (only 'a send under it must not block'); gRPC stream fairness not modelled. Duplicate delivery when two filters match is not excluded by the statement and not checked.",
          "DESIGN.md §3-C20"),
  "C14": ("per-entry transition contract of handleCleanup (range over the aggregation map; old() = head of the iteration; symbolic monotone clock), frame clauses for the other entries, contract on PostObservationRequest; SMT",
